@@ -3,7 +3,7 @@
 
   seed_import.py <round> <scratch-prefix> <letters e.g. EF> <first-try log> <now log> [strengthening.json]
 
-Reads /tmp/<prefix>_<ID>_out/{A,B}.diff, {A,B}_demo.rs, {A,B}_meta.txt, {A,B}_confirm.json and the two detection logs
+Reads /tmp/<prefix>_<ID>_out/{A,B,..}.diff, _demo.rs, _meta.txt, _confirm.json (one per letter given) and the two detection logs
 (lines "Cxx-A [quick] DETECTED ..."), writes seeded/<ID>-<letter>/{patch.diff,demo.rs,meta.json} and prints the DESIGN table rows.
 """
 import json, os, re, shutil, sys
@@ -12,7 +12,7 @@ V = os.path.dirname(os.path.dirname(os.path.abspath(__file__)))
 def verdicts(path):
     out = {}
     for l in open(path):
-        m = re.match(r"(C\d\d)-([AB]) \[(\w+)\] (\w+)", l)
+        m = re.match(r"(C\d\d)-([A-Z]) \[(\w+)\] (\w+)", l)
         if m:
             out[(m.group(1), m.group(2))] = m.group(4)
     return out
@@ -25,7 +25,7 @@ def main():
     for i in range(1, 21):
         pid = "C%02d" % i
         outd = "/tmp/%s_%s_out" % (prefix, pid)
-        for x, letter in zip("AB", letters):
+        for x, letter in zip("ABCDEFGH"[:len(letters)], letters):
             d = os.path.join(V, "seeded", "%s-%s" % (pid, letter))
             os.makedirs(d, exist_ok=True)
             shutil.copy(os.path.join(outd, x + ".diff"), os.path.join(d, "patch.diff"))
